@@ -2,6 +2,8 @@ import IsoVerif.Driver.Core
 import IsoVerif.Gen.Strategies
 import IsoVerif.Model.IntronGraph
 import IsoVerif.Model.ModelConstruction
+import IsoVerif.Model.GeneJoiner
+import IsoVerif.Model.IntronTerminals
 
 namespace IsoVerif.Driver.C04
 open Lean IsoVerif.Driver IsoVerif.Gen IsoVerif.Model IsoVerif.Model.C04
@@ -272,6 +274,87 @@ def ops : List (String × Handler) := [
         ("fl", ofList ofIvList (insSort pathLe ps.fl)),
         ("to_reads", ofList (fun p : List Iv × List Read => Json.arr #[ofIvList p.1, ofList (fun r : Read => ofStr r.id) p.2])
                        (insSort (fun a b => pathLe a.1 b.1) ps.toReads))])),
+  ("get_edges", fun j => do
+      -- IntronGraph.get_outgoing / get_incoming; "vtype" null = intron vertices
+      let g ← jGraph (← arg j "graph")
+      let intron ← jIv (← arg j "intron")
+      let vt ← jOpt jInt (← arg j "vtype")
+      pure (Json.mkObj [("out", ofIvList (getOutgoing g intron vt)), ("inc", ofIvList (getIncoming g intron vt))])),
+  ("thread_end_start", fun j => do
+      -- IntronPathProcessor.thread_ends / thread_starts on a graph
+      let g ← jGraph (← arg j "graph")
+      let intron ← jIv (← arg j "intron")
+      let pos ← jInt (← arg j "pos")
+      let trusted ← jBool (← arg j "trusted")
+      let delta ← jInt (← arg j "delta")
+      let apa ← jInt (← arg j "apa_delta")
+      let o (v : Option Iv) : Json := match v with | none => Json.null | some x => ofIv x
+      pure (Json.mkObj [("end", o (threadEnds g delta apa intron pos trusted)),
+                        ("start", o (threadStarts g delta apa intron pos trusted))])),
+  ("fill_graph", fun j => do
+      -- IntronPathStorage.fill with the modelled thread_ends / thread_starts
+      let g ← jGraph (← arg j "graph")
+      let reads ← jList jRead (← arg j "reads")
+      let ps := fillGraphPaths g (← jInt (← arg j "delta")) (← jInt (← arg j "apa_delta")) (← jBool (← arg j "requires_polya")) reads
+      let pathLe : List Iv → List Iv → Bool := fun a b => flPathLe a b
+      pure (Json.mkObj [
+        ("paths", ofList (fun p : List Iv × Int => Json.arr #[ofIvList p.1, ofInt p.2]) (insSort (fun a b => pathLe a.1 b.1) ps.paths)),
+        ("fl", ofList ofIvList (insSort pathLe ps.fl)),
+        ("to_reads", ofList (fun p : List Iv × List Read => Json.arr #[ofIvList p.1, ofList (fun r : Read => ofStr r.id) p.2])
+                       (insSort (fun a b => pathLe a.1 b.1) ps.toReads))])),
+  ("count_score_exact", fun j => do
+      let s := countScoreExact (← jIv (← arg j "r1")) (← jIv (← arg j "r2")) (← jIvList (← arg j "i1")) (← jIvList (← arg j "i2"))
+      pure (Json.arr #[ofInt s.1, ofInt s.2])),
+  ("join_transcripts", fun j => do
+      -- TranscriptToGeneJoiner(storage, gene_info).join_transcripts(); "table": the floats the real count_score returned
+      let rg (x : Json) : Except String RefGene := do
+        pure { gid := ← jStr (← arg x "gid"), strand := ← jStrand (← arg x "strand"), region := ← jOpt jIv (← arg x "region") }
+      let rt (x : Json) : Except String (String × String × List Iv) := do
+        let a ← jArr x
+        pure (← jStr a[0]!, ← jStr a[1]!, ← jIvList a[2]!)
+      let key (x : Json) : Except String (Iv × Iv × List Iv × List Iv) := do
+        let a ← jArr x
+        pure (← jIv a[0]!, ← jIv a[1]!, ← jIvList a[2]!, ← jIvList a[3]!)
+      let gs ← jList rg (← arg j "ref_genes")
+      let ts ← jList rt (← arg j "ref_transcripts")
+      let storage ← jList jTModel (← arg j "storage")
+      let table ← jList (jPair key (jPair jInt jInt)) (← arg j "table")
+      let heur : ScoreFn := fun r1 r2 i1 i2 =>
+        match amGet? table (r1, r2, i1, i2) with
+        | some s => s
+        | none => countScoreExact r1 r2 i1 i2
+      match joinTranscripts heur gs ts storage with
+      | none => pure (jErr "error")
+      | some (jn, ms) =>
+        pure (Json.mkObj [
+          ("genes", ofList (fun m : TModel => Json.arr #[ofStr m.tid, ofStr m.gene]) ms),
+          ("strands", ofList (fun p : String × Strand => Json.arr #[ofStr p.1, ofStr p.2.toString]) jn.strands),
+          ("regions", ofList (fun p : String × Iv => Json.arr #[ofStr p.1, ofIv p.2]) jn.regions),
+          ("g2t", ofList (fun p : String × List String => Json.arr #[ofStr p.1, ofList ofStr p.2]) jn.g2t),
+          ("introns", ofList (fun p : String × List Iv => Json.arr #[ofStr p.1, ofIvList (sortIv p.2)]) jn.introns),
+          ("scores", ofList (fun p : (String × String) × Score => Json.arr #[ofStr p.1.1, ofStr p.1.2, ofInt p.2.1, ofInt p.2.2]) jn.scores)])),
+  ("graph_attach", fun j => do
+      -- IntronGraph.__init__ with the traced simplify() history and the MODELLED attach_terminal_positions()
+      let reads ← jList jRead (← arg j "reads")
+      let ops ← jList jOp (← arg j "ops")
+      let tp : TermParams := {
+        delta := ← jInt (← arg j "delta"), apaDelta := ← jInt (← arg j "apa_delta"),
+        abs := ← jInt (← arg j "terminal_position_abs"), relM := ← jInt (← arg j "terminal_position_rel"),
+        internalRelM := ← jInt (← arg j "terminal_internal_position_rel"),
+        knownEnds := ← jList (jPair jIv (jList jInt)) (← arg j "known_ends"),
+        knownStarts := ← jList (jPair jIv (jList jInt)) (← arg j "known_starts") }
+      match Graph.constructed (← jIvList (← arg j "known")) (← jInt (← arg j "delta")) reads (← jInt (← arg j "min_count")) with
+      | none => pure (jErr "error")
+      | some g0 =>
+        match runOps (obsIntrons reads) g0 ops with
+        | none => pure (jErr "error")
+        | some g1 =>
+          match attachTerminalOps g1 tp reads with
+          | none => pure (jErr "error")
+          | some (aops, fragile) =>
+            match aops.foldlM applyOp g1 with
+            | none => pure (jErr "error")
+            | some g2 => pure (Json.mkObj [("graph", ofGraph g2), ("fragile", ofBool fragile), ("n_attach", ofNat aops.length)])),
   ("monoexon", fun j => do
       let chr ← jStr (← arg j "chr")
       let forb ← jList jNat (← arg j "forbidden")
